@@ -62,7 +62,12 @@ from pytato.array import (
     _get_einsum_access_descr_to_axis_len,
 )
 from pytato.diagnostic import CannotBeLoweredToIndexLambda
-from pytato.scalar_expr import INT_CLASSES, FlattenMapper, ScalarExpression
+from pytato.scalar_expr import (
+    INT_CLASSES,
+    FlattenMapper,
+    ScalarExpression,
+    TypeCast,
+)
 from pytato.tags import AssumeNonNegative
 from pytato.transform import (
     Mapper,
@@ -80,6 +85,22 @@ if TYPE_CHECKING:
 
 
 ToIndexLambdaT = TypeVar("ToIndexLambdaT", Array, AbstractResultWithNamedArrays)
+
+
+def _cast_to_dtype(
+            expr: ArithmeticExpression,
+            from_dtype: np.dtype[Any],
+            to_dtype: np.dtype[Any]
+        ) -> ArithmeticExpression:
+    """
+    Cast an operand of a node that combines arrays of different dtypes to the
+    node's (numpy-promoted) dtype. Code generation targets need not follow
+    numpy's promotion rules, e.g. loopy evaluates ``float32*int32`` in
+    ``float32``, where numpy says ``float64``.
+    """
+    if from_dtype != to_dtype and to_dtype.kind != "b":
+        return TypeCast(to_dtype, expr)
+    return expr
 
 
 @dataclass(frozen=True)
@@ -329,7 +350,8 @@ class ToIndexLambdaMixin:
         #            ...
         #                _inNm1[_0, _1, ...] ...))
         for i in range(len(expr.arrays) - 1, -1, -1):
-            subarray_expr = prim.Variable(f"_in{i}")[subscript]
+            subarray_expr = _cast_to_dtype(prim.Variable(f"_in{i}")[subscript],
+                                           expr.arrays[i].dtype, expr.dtype)
             if i == len(expr.arrays) - 1:
                 stack_expr = subarray_expr
             else:
@@ -380,7 +402,8 @@ class ToIndexLambdaMixin:
         #                _inNm1[_0, _1, ...] ...))
         for i in range(len(expr.arrays) - 1, -1, -1):
             lbound, ubound = lbounds[i], ubounds[i]
-            subarray_expr = get_subscript(i, lbound)
+            subarray_expr = _cast_to_dtype(get_subscript(i, lbound),
+                                           rec_arrays[i].dtype, expr.dtype)
             if i == len(expr.arrays) - 1:
                 concat_expr: ArithmeticExpression = subarray_expr
             else:
@@ -416,7 +439,7 @@ class ToIndexLambdaMixin:
 
         bindings = {f"_in{k}": arg for k, arg in enumerate(rec_args)}
         redn_bounds: dict[str, tuple[ArithmeticExpression, ArithmeticExpression]] = {}
-        args_as_pym_expr: list[prim.Subscript] = []
+        args_as_pym_expr: list[ArithmeticExpression] = []
         namegen = UniqueNameGenerator(set(bindings))
         var_to_redn_descr = {}
 
@@ -456,8 +479,10 @@ class ToIndexLambdaMixin:
 
                     subscript_indices.append(prim.Variable(redn_idx_name))
 
-            args_as_pym_expr.append(prim.Subscript(prim.Variable(f"_in{iarg}"),
-                                                   tuple(subscript_indices)))
+            args_as_pym_expr.append(_cast_to_dtype(
+                prim.Subscript(prim.Variable(f"_in{iarg}"),
+                               tuple(subscript_indices)),
+                arg.dtype, expr.dtype))
 
         # }}}
 
@@ -745,12 +770,16 @@ class ToIndexLambdaMixin:
         from pytato.reductions import SumReductionOperation
         from pytato.scalar_expr import Reduce
         index_expr = Reduce(
-            prim.Variable("_in0")[prim.Variable(redn_var),]
-            * prim.Variable("_in3")[(
-                prim.Variable("_in1")[prim.Variable(redn_var),],
-                *(
-                    prim.Variable(f"_{idim}")
-                    for idim in range(1, rec_array.ndim)))],
+            _cast_to_dtype(
+                prim.Variable("_in0")[prim.Variable(redn_var),],
+                rec_matrix_elem_values.dtype, expr.dtype)
+            * _cast_to_dtype(
+                prim.Variable("_in3")[(
+                    prim.Variable("_in1")[prim.Variable(redn_var),],
+                    *(
+                        prim.Variable(f"_{idim}")
+                        for idim in range(1, rec_array.ndim)))],
+                rec_array.dtype, expr.dtype),
             SumReductionOperation(),
             constantdict({
                 redn_var: (
